@@ -10,8 +10,9 @@ BatchRelease plan and no-need-update count, every API fault, and — for the wal
 controller calls and user updates.  The oracles are those of `RV/Oracle/CtlSts.lean`, which the driver evaluates on
 the snapshots of the real code.
 
-One defect of the unchanged code is an open known finding (`dsNoRollingUpdate`, see `no_crash_partial` /
-`no_crash_full_FALSE`).  Two further facts are visible as explicit hypotheses / witnesses rather than findings:
+One defect found by this slice (`dsNoRollingUpdate`: nil dereference in the DaemonSet `CalculateBatchContext`) is
+repaired in the code; the model is of the repaired code (`no_crash`).  Two further facts are visible as explicit
+hypotheses / witnesses rather than findings:
 `MaxInt16` holds back every pod only of a workload with at most `MaxInt16` replicas (`sizeOK`, witness
 `hold_beyond_maxInt16_FALSE`), and a repeated `Finalize` re-issues its (then ineffective) patch.
 -/
@@ -628,27 +629,22 @@ theorem hold_beyond_maxInt16_FALSE :
      | .panic => false) = true := by
   decide +kernel
 
-/-! ## no crash — known finding `dsNoRollingUpdate` (attached to C07: a crash-looping controller finishes no rollout) -/
+/-! ## no crash (attached to C07 and C09; finding `dsNoRollingUpdate` is repaired in the code) -/
 
-/-- **no crash (partial: outside known finding `dsNoRollingUpdate`)** — for every workload an API server can hold
-    (`spec.replicas` set) and every plan whose current batch exists, no call of the control planes — `Initialize`,
-    `UpgradeBatch`, `Finalize`, with any fault — and no admission panics (a panicking admission handler only rejects),
-    except `UpgradeBatch` of a non-empty Advanced DaemonSet without `updateStrategy.rollingUpdate`.
-    Full strength (no guard) is `no_crash_full_FALSE`. -/
-theorem no_crash_partial (c : Cfg) (d : Option Wl) (s : Step) :
-    noCrashPartial c.rel s d (isPanic (step c d s)) = true := by
-  unfold noCrashPartial noCrashFull
+/-- **no crash** — for every workload an API server can hold (`spec.replicas` set) and every plan whose current batch
+    exists, no call of the control planes — `Initialize`, `UpgradeBatch`, `Finalize`, with any fault — and no admission
+    panics (a panicking admission handler only rejects).  This includes `UpgradeBatch` of an Advanced DaemonSet without
+    `updateStrategy.rollingUpdate`, which dereferenced nil before the repair. -/
+theorem no_crash (c : Cfg) (d : Option Wl) (s : Step) :
+    noCrash c.rel s d (isPanic (step c d s)) = true := by
+  unfold noCrash
   cases hst : step c d s with
   | val o => simp [isPanic]
   | panic =>
     simp only [isPanic, Bool.not_true]
-    rcases step_panic_cases c d s hst with ⟨w, hd, hr⟩ | ⟨hc, w, r, hd, hr, hr0, he | ⟨hk, hru⟩⟩
+    rcases step_panic_cases c d s hst with ⟨w, hd, hr⟩ | ⟨hc, w, r, hd, hr, hr0, he⟩
     · subst hd; simp [callInputOK, hr]
     · subst hd; simp [callInputOK, hr, hc, hr0, he]
-    · subst hd
-      have : guardDsNoRU s (some w) = true := by
-        simp [guardDsNoRU, hc, dsNoRU, hk, hru, hr, hr0]
-      simp [this]
 
 /-- a claimed DaemonSet whose user switched to `OnDelete` and dropped the `rollingUpdate` block during the rollout
     (the template is unchanged: the webhook admits the update as it is) -/
@@ -656,18 +652,14 @@ def exDSNoRU : Wl :=
   { kind := .daemonSet, replicas := some 4, us := .present "OnDelete" .absent, control := .this,
     inProgress := true, tmpl := 2, tmplPresent := true, updatedReady := 0, rest := 0 }
 
-/-- **finding `dsNoRollingUpdate` (no-crash at full strength is FALSE)** — `daemonset.realController.CalculateBatchContext`
-    dereferences `Spec.UpdateStrategy.RollingUpdate` without a nil check: `UpgradeBatch` of such a DaemonSet panics, and
-    the manager (no `RecoverPanic`) dies on every reconcile of that BatchRelease.  The state is reached through the
-    webhook: the user's update is admitted unchanged. -/
-theorem no_crash_full_FALSE :
+/-- regression test (former witness of finding `dsNoRollingUpdate`): the state is reached through the webhook, and
+    `UpgradeBatch` now returns ok without a write (current partition 0 ≤ desired) instead of panicking -/
+example :
     step exCfg (some { exDSNoRU with us := .present "RollingUpdate" (.present (.int 4) (some false) false) })
         (mk .submit 0 false { Edit.none with us := some (.present "OnDelete" .absent) }) =
       .val { res := .ok, wl := some exDSNoRU, writes := 0, obs := none } ∧
-    step exCfg (some exDSNoRU) (mk .upgradeBatch 0) = .panic ∧
-    callInputOK exCfg.rel (mk .upgradeBatch 0) (some exDSNoRU) = true ∧
-    guardDsNoRU (mk .upgradeBatch 0) (some exDSNoRU) = true ∧
-    noCrashFull exCfg.rel (mk .upgradeBatch 0) (some exDSNoRU) (isPanic (step exCfg (some exDSNoRU) (mk .upgradeBatch 0))) = false := by
+    step exCfg (some exDSNoRU) (mk .upgradeBatch 0) = .val { res := .ok, wl := some exDSNoRU, writes := 0, obs := none } ∧
+    callInputOK exCfg.rel (mk .upgradeBatch 0) (some exDSNoRU) = true := by
   decide +kernel
 
 /-! ## non-vacuity (tests on literals, not the ∀ claims) -/
